@@ -254,8 +254,9 @@ class StubContext(ChainContext):
         return self._slot
 
     def _utxos(self, address: str) -> List[UTxO]:
-        # fresh list each call, same UTxO objects (as a caching backend would return)
-        return list(self._by_addr.get(address, []))
+        # the SAME list object on every call, holding the same UTxO objects (what a caching backend returns): a builder
+        # that sorts or pops the list it is handed damages the caller's pool, and the list snapshots of `run` show it
+        return self._by_addr.setdefault(address, [])
 
     def submit_tx_cbor(self, cbor):
         pass
@@ -359,6 +360,8 @@ class Run:
         self.context = None
         self.pool_snapshot_before = None
         self.pool_snapshot_after = None
+        self.lists_before = None   # the caller's pools as sequences, taken after the add_* calls and before build()
+        self.lists_after = None
         self.redeemer_objs = {}    # op index -> Redeemer object handed to the builder
         self.attached = []         # what was attached to what (for C11): dicts
 
@@ -385,6 +388,26 @@ def redeemer(spec):
 
 def snapshot(ctxobj: StubContext):
     return {k: u.to_cbor().hex() for k, u in ctxobj.utxo_objs.items()}
+
+
+def _ref(u):
+    return [bytes(u.input.transaction_id.payload).hex(), int(u.input.index)]
+
+
+def list_snapshot(b, cx: StubContext):
+    """the caller's POOLS as sequences (order and multiplicity): the potential and excluded lists handed to the builder and
+    every list the chain context hands out"""
+    d = {"potential": [_ref(u) for u in b.potential_inputs], "excluded": [_ref(u) for u in b.excluded_inputs]}
+    for a, lst in cx._by_addr.items():
+        d["context:" + a] = [_ref(u) for u in lst]
+    return d
+
+
+def lists_changed(r):
+    """names of the caller's pools whose sequence differs before / after build()"""
+    if r.lists_before is None or r.lists_after is None:
+        return []
+    return sorted(k for k in r.lists_before if r.lists_before[k] != r.lists_after.get(k))
 
 
 EXTRA_OPS = {}   # op name -> callable(builder, context, op, run, idx): checks may register further builder calls here
@@ -505,6 +528,7 @@ def run(sc, sign=True) -> Run:
         return r
     kw = dict(change_address=address(bargs["change"]) if bargs.get("change") is not None else None,
               merge_change=bool(bargs.get("merge_change", False)))
+    r.lists_before = list_snapshot(b, cx)
     if bargs.get("collateral_change") is not None:
         kw["collateral_change_address"] = address(bargs["collateral_change"])
     for k in ("auto_validity_start_offset", "auto_ttl_offset", "auto_required_signers"):
@@ -520,4 +544,5 @@ def run(sc, sign=True) -> Run:
     except Exception as e:
         r.error, r.error_stage, r.exc = classify(e), "build", e
     r.pool_snapshot_after = snapshot(cx)
+    r.lists_after = list_snapshot(b, cx)
     return r
